@@ -41,10 +41,11 @@ import (
 func init() { extractors["accesses"] = extractAccesses }
 
 type accAnnotations struct {
-	Packages     []string                         `json:"packages"`
-	TrackedTypes map[string]any                   `json:"tracked_types"`
-	AtomicTypes  struct{ Types []string }         `json:"atomic_types"`
-	LockAliases  []struct{ Expr, Is, Why string } `json:"lock_aliases"`
+	Packages     []string                              `json:"packages"`
+	TrackedTypes map[string]any                        `json:"tracked_types"`
+	AtomicTypes  struct{ Types []string }              `json:"atomic_types"`
+	LockAliases  []struct{ Expr, Is, Why string }      `json:"lock_aliases"`
+	LocalLocks   []struct{ Func, Var, Is, Why string } `json:"local_locks"`
 	ClosureLocks []struct {
 		Callee string
 		Arg    int
@@ -1036,6 +1037,15 @@ func (w *walker) closureS(fl *ast.FuncLit, ls *lockset, sync bool, annots ...str
 func (w *walker) lockID(recv ast.Expr) string {
 	var parts []string
 	e := recv
+	if id, ok := recv.(*ast.Ident); ok && w.fn != nil {
+		// a local *sync.Mutex that a reviewed annotation identifies (`lock` returned by Conn.waitResponse = &c.rlock)
+		for _, a := range w.x.ann.LocalLocks {
+			if a.Func == w.fn.name && a.Var == id.Name {
+				w.x.usedAnn["local_lock "+a.Func+":"+a.Var] = true
+				return a.Is
+			}
+		}
+	}
 	for {
 		switch u := e.(type) {
 		case *ast.ParenExpr:
